@@ -1,7 +1,7 @@
 from vlib.core import *
 
 META = dict(
-    level_text="Bookkeeping of LOBPCGSolver::compute proved for ALL kernels (every outcome of the LDLT orthonormalisation, of the dense EigenSolver, of the inner SymGEigsSolver, every preconditioner, every column-norm test), A* and B* only assumed linear over a commutative ring: the tracked products AX = A X, BX = B X, AD = A D, BD = B D are loop invariants for every coefficient block (c17_products), residuals() = A X - B X diag(eigenvalues) for the iterate (c17_residuals), a Gram-B-orthonormal coefficient matrix yields X'BX = I for the update X C_X + R C_R + D C_D (c17_borth, c17_update_concat, c17_step_update), eigenvectors() IS that iterate and has k columns (c17_shape, full strength since the repair of F10), info = Success iff every residual column passed sqrt(sum r^2) < tol_div_n*n AND the returned block passed the B-orthonormality guard max|X'BX - I| < sqrt(eps), for EVERY prior object state (c17_success_tol, c17_success_borth, c17_passes_info, c17_status, c17_nonsuccess_reported; the guard read in exact arithmetic: c17_guard_meaning; a Gram matrix whose Cholesky factorisation fails ends the loop with NumericalIssue instead of feeding the failed factor to the inner solver; both since the repair of C17-gram-breakdown; exits enumerated in c17_status_exits; an exhausted loop reports NoConvergence: c17_exhausted_noconvergence, since the repair of C17-stale-info), the inner solver's constructor guard (regenerated from HermEigsBase.h) holds on every Gram pencil the loop builds, for every k >= 1 (c17_inner_guard, c17_inner_guard_holds, c17_throw_only_numeric, since the repair of C17-inner-ncv), eigenvalues() ascending for distinct kernel outputs (c17_ascending_partial, c17_sorted_partial), removed-column indices fit every block (c17_directions_width, c17_removed_width). One recorded finding remains: a rare one-step loss of B-orthonormality below the guard's threshold that is never repaired (C17-borth-drift). That the values are the k SMALLEST of the pencil is convergence: oracle only.",
+    level_text="Bookkeeping of LOBPCGSolver::compute proved for ALL kernels (every outcome of the LDLT orthonormalisation, of the dense EigenSolver, of the inner SymGEigsSolver, every preconditioner, every column-norm test), A* and B* only assumed linear over a commutative ring: the tracked products AX = A X, BX = B X, AD = A D, BD = B D are loop invariants for every coefficient block (c17_products), residuals() = A X - B X diag(eigenvalues) for the iterate (c17_residuals), a Gram-B-orthonormal coefficient matrix yields X'BX = I for the update X C_X + R C_R + D C_D (c17_borth, c17_update_concat, c17_step_update), eigenvectors() IS that iterate and has k columns (c17_shape, full strength since the repair of F10), info = Success iff every residual column passed sqrt(sum r^2) < tol_div_n*n AND the returned block passed the B-orthonormality guard max|X'BX - I| < sqrt(eps), for EVERY prior object state (c17_success_tol, c17_success_borth, c17_passes_info, c17_status, c17_nonsuccess_reported; the guard read in exact arithmetic: c17_guard_meaning; a Gram matrix whose Cholesky factorisation fails ends the loop with NumericalIssue instead of feeding the failed factor to the inner solver; both since the repair of C17-gram-breakdown; exits enumerated in c17_status_exits; an exhausted loop reports NoConvergence: c17_exhausted_noconvergence, since the repair of C17-stale-info), the inner solver's constructor guard (regenerated from HermEigsBase.h) holds on every Gram pencil the loop builds, for every k >= 1 (c17_inner_guard, c17_inner_guard_holds, c17_throw_only_numeric, since the repair of C17-inner-ncv), eigenvalues() ascending for distinct kernel outputs (c17_ascending_partial, c17_sorted_partial), removed-column indices fit every block (c17_directions_width, c17_removed_width), histories on ONE object (model object Obj = members A, m_B/flag, m_preconditioner/flag + state; setters store only: c17_setters_last_win; compute() reads of the earlier state only X, m_evalues, m_evectors, never m_info or m_residuals: c17_compute_reads; after ANY history of setB/setPreconditioner/compute calls the next compute() equals that of a fresh object built from (A, current X) with the B and T last set, i.e. the result is a function of (A, current B, current T, current X, maxit, tol) only, no remembered status/tolerance/result: c17_compute_history_independent, c17_histories_same_tail; without the hypothesis that the first dense eigen-solver succeeds only c17_compute_history_independent_partial, with a counterexample). One recorded finding remains: a rare one-step loss of B-orthonormality below the guard's threshold that is never repaired (C17-borth-drift). That the values are the k SMALLEST of the pencil is convergence: oracle only.",
     note="Lean kernel + propext/Classical.choice/Quot.sound; the numeric inner solvers (SimplicialLDLT, EigenSolver, SymGEigsSolver = C03) enter as arbitrary functions in the theorems and as recorded outputs in the correspondence; a C++ shadow of compute() built from the class's own private methods supplies those records and must equal the real object bit for bit at every cut; exact-arithmetic reading of the invariants (rounding makes AX drift from A X: bounded by the oracle, not proved); setConstraints not modelled",
     technique="Lean 4 proof (list induction, module/linear-map algebra) on a hand-written executable model generic in scalar, column type and kernels + differential correspondence at every iteration cut + long-double oracle",
     design="§5 C17", harnesses=['c17'])
@@ -14,7 +14,7 @@ def run(tier, seed, replay=None):
                                   'harness shadow of compute(): a statement-by-statement copy using the real private methods; checked bit-identical to the real compute() at every cut (field sh=1)',
                                   'the Cholesky outcome of the Gram matrix (DenseCholesky::info()) is a recorded kernel output; the B-orthonormality guard is recomputed by the model (threshold sqrt(eps) handed over by the harness)']
     R.assumptions = ['exact arithmetic over a commutative ring for the invariants; the floating-point drift of the tracked products is bounded by the oracle only',
-                     'flag_with_constraints = false (setConstraints is outside the property)']
+                     'flag_with_constraints = false in the model and the correspondence (setConstraints is outside the property; it appears in the oracle histories only)']
     if replay:
         exe, log = build_harness('c17')
         out = os.path.join(R.work, 'replay'); rc, hlog = run_harness(exe, out, seed, tier, ['--replay', replay])
@@ -32,18 +32,33 @@ def run(tier, seed, replay=None):
                          'k = 3..6, T none/Jacobi/poor; columns lock at different iterations and unlock again; cuts 0..12 for the first 60, oracle on all) and near-convergence stress stream '
                          'with the Jacobi preconditioner (24 / 160 cases at tol_div_n in {1e-12,1e-13}, 12 / 1200 at the default 1e-7, k = 4..6: oracle on all, whole-run correspondence (one cut '
                          'at maxit = n) for the first two and for up to three runs that end in the Gram-matrix exit or a failed guard); crafted exits (exact start with tol 0, one column left, tol 0, '
-                         'indefinite B making the B-orthonormality guard fail). distinct request lines counted')
+                         'indefinite B making the B-orthonormality guard fail). '
+                         'history stream (14 / 140 histories on ONE object, k = 2..4: compute; setB / setPreconditioner / setConstraints with a new argument; compute again with the same, a 10x looser, a 100x tighter '
+                         'tolerance or another maxit; also compute(3) unfinished first, three computes, compute on an unchanged converged object): after EVERY compute the state must equal bit for bit that of a fresh '
+                         'object built from (A, the X held on entry) with the current B/T/Y and the same call, and the property predicate is evaluated for the CURRENT problem; the first 7 / 42 histories without '
+                         'constraints are one `hist` request each, answered by the model object from the state the previous call left). '
+                         'indefinite / negative definite stream (24 / 240 cases: prescribed spectra with m <= k large negative eigenvalues below a group around zero, negative definite spectra with both ends separated, '
+                         'banded with a negative head, negative of a PD band; with / without B; no / |diag|-Jacobi / poor diagonal preconditioner; cuts 0..5 for the first 6 / 48, oracle on all: the k values must be the k '
+                         'ALGEBRAICALLY smallest). collapse family (fixed constants, up to 400 members scanned, one per configuration, at most 4: tridiagonal / pentadiagonal graded A, start block supported on the first '
+                         'k nodes, so the residual block of iteration 0 has rank 1 or 2 and a rounding-level negative LDLT pivot zeroes a column of R; the Rayleigh-Ritz step picks the phantom direction and a column of X '
+                         'collapses to ~0 while every entry of X\'BX - I is <= 1e-9: the final guard must fail (NumericalIssue); cuts 0, 1, 2, n + oracle). distinct request lines counted')
         R.cov['exhaustive'] = False
         hc = R.cov.get('harness_counters', {})
         tags = {'exit converged / exhausted (info_0 / info_3)': 'c17:info_0', 'exit orthRFailed (LDLT of R\'BR fails)': 'c17:exit_orthR_failed', 'exit rrThrew (inner solver throws)': 'c17:exit_threw',
                 'exit orthDFailed (LDLT of D\'BD fails)': 'c17:exit_orthD_failed', 'exit rrFailed (inner solver not converged)': 'c17:exit_rr_notconverged',
                 'exit gramFailed (Cholesky of the Gram matrix fails)': 'c17:exit_gram_failed', 'finalize: all columns pass, B-orthonormality guard fails': 'c17:final_guard_failed',
                 'finalize: all columns pass, guard passes': 'c17:final_guard_passed', 'iteration where a locked column is unlocked again': 'c17:iter_with_unlocked_column',
-                'iteration with removed (converged) columns': 'c17:iter_with_removed_columns', 'sort_epairs with tied keys': 'c17:sortep_ties'}
+                'iteration with removed (converged) columns': 'c17:iter_with_removed_columns', 'sort_epairs with tied keys': 'c17:sortep_ties',
+                'finalize: collapsed block (a column of X of B-norm ~0, signed maximum of X\'BX - I below the threshold, cwiseAbs guard fails)': 'c17:collapse_signed_guard_cases',
+                'history: compute() on an object whose previous compute() reported Success': 'c17:hist_compute_after_info0',
+                'history: compute() on an object whose previous compute() reported NoConvergence': 'c17:hist_compute_after_info2',
+                'history: setB on a used object': 'c17:hist_setB', 'history: setPreconditioner on a used object': 'c17:hist_setPreconditioner',
+                'history: whole history replayed by the model object': 'c17:hist_corr_lines'}
         R.cov['model_branches_reached'] = sorted(k for k, v in tags.items() if hc.get(v, 0) > 0)
         R.cov['model_branches_uncovered'] = sorted(k for k, v in tags.items() if hc.get(v, 0) == 0) + ['initial orthogonalizeInPlace(X) fails (rank-deficient X0: outside the quantifier; the real code then multiplies the 0x0 BX: Eigen assertion)', 'initial EigenSolver fails']
         R.cov['oracle'] = ('on Success: eigenvalues ascending; |theta_i - lambda_i| <= 4 tol n / sqrt(lambda_min(B)) + 1e-9(1+|lambda_i|) vs long-double GeneralizedSelfAdjointEigenSolver when that bound is below '
                            'a quarter of the smallest gap of lambda_0..lambda_k, otherwise (loose tolerance) every theta_i within the bound of SOME eigenvalue of the pencil and theta_i >= lambda_i - bound; '
                            'max|X\'BX - I| <= 1e-8 (internal X); eigenvectors() n x k and B-orthonormal (F10); max|residuals() - (A X - B X diag(theta))| <= 1e-9 n (|A|+|theta||B|) max(1,|X|); '
-                           'column norms < tol n; all outputs finite; no exception for valid input (C17-inner-ncv); second compute() not stale (C17-stale-info)')
+                           'column norms < tol n; all outputs finite; no exception for valid input (C17-inner-ncv); second compute() not stale (C17-stale-info); histories: the same predicate after every compute() for the CURRENT (A, B) '
+                           '(with constraints Y: reference = pencil restricted to {x : Y\'Bx = 0}, and max|Y\'BX| <= 1e-8 max(1,|Y|)), and bit-equality with the fresh twin (sig reuse-differs-from-fresh)')
     return R.finish()
